@@ -4358,7 +4358,7 @@ func init() {
 	reg(&Rule{ID: "R-C20-cachebound", Props: []string{"C20", "C06"}, Floor: 1,
 		Doc: "a native that stores into a cache which lives as long as the compiled query (a sync.Map) does so under a size test against a constant, or evicts (Clear/Delete) in the same function: the key can be computed from the input, so `range(infinite) | tostring | test(.)` would otherwise retain one compiled regexp per output",
 		Run: ruleCacheBound})
-	reg(&Rule{ID: "R-C20-capturetrim", Props: []string{"C20", "C16"}, Floor: 2,
+	reg(&Rule{ID: "R-C20-capturetrim", Props: []string{"C20"}, Floor: 2,
 		Doc: "an input iterator that reads through the capturing reader (the copy of a non-seekable input kept for error excerpts) gives the captured bytes back as it goes: its Next, or what Next calls, trims the capture buffer — otherwise `inputs` over a pipe retains the whole input",
 		Run: ruleCaptureTrim})
 	addDecided("C20", " The per-query regexp cache stores under a size test (R-C20-cachebound; D43); input iterators over the capturing reader trim the capture (R-C20-capturetrim; YAML input from a pipe: known finding D44).")
